@@ -20,7 +20,7 @@ PID = "C20"
 ALPH = [" ", "\t", "\n", "\xa0", "a", "b"]
 # letters that Unicode normalisation forms, case mapping or width folding would change: a normaliser of SPACES keeps them
 # text whose CHARACTERS are markup characters (escaped in the source document): it stays text
-MARKUPISH = ["AT&T", "1<2", "x>y", "&amp;", "<b>x</b>", "&lt;i&gt;", "&#38;", "<!--c-->", "<?pi?>", "&", "<", "\"q'"]
+MARKUPISH = [' encoding="UTF-8"', "version='1.0'", "<?xml?>", "AT&T", "1<2", "x>y", "&amp;", "<b>x</b>", "&lt;i&gt;", "&#38;", "<!--c-->", "<?pi?>", "&", "<", "\"q'"]
 ODD = ["\u00b5g", "km\u00b2", "\ufb01eld", "\uff1cb\uff1e", "\uff06", "\uff02", "e\u0301", "\u212b", "\u2460", "\uff46", "\u0130", "\u00df", "\u01c6", "\u2026", "\u2122", "\u1e9b\u0323"]
 PROTECTED = ["markup", "literalLayout", "objectName", "attributeName", "para"]
 PLAIN = ["title", "abstract", "section", "value", "emphasis", "dataset", "entityName", "x", "html", "HTML", "br", "meta", "p", "head", "script"]
@@ -70,7 +70,7 @@ def prolog(rnd):
     entities (used in text and attribute values below), comments and processing instructions around the root."""
     s = ""
     if rnd.random() < 0.3:
-        s += '<?xml version="1.0" encoding="UTF-8"?>\n'
+        s += rnd.choice(['<?xml version="1.0" encoding="UTF-8"?>\n', '<?xml version="1.0"?>', '<?xml version="1.0"?>\n', "<?xml version='1.0' standalone='yes'?>"])
     ents = {}
     if rnd.random() < 0.35:
         ents = {k: ENTITIES[k] for k in rnd.sample(sorted(ENTITIES), rnd.randint(1, 3))}
@@ -104,7 +104,7 @@ def rdoc(rnd, depth=0, inside_protected=False, ents=None):
         attrs.append(("xmlns:xsi", "http://www.w3.org/2001/XMLSchema-instance"))
     used = set()
     for _ in range(rnd.choice([0, 0, 1, 2, 3])):
-        an = rnd.choice(["id", "scope", "system", "xsi:type", "xsi:schemaLocation", "lang", "n"])
+        an = rnd.choice(["id", "scope", "system", "xsi:type", "xsi:schemaLocation", "lang", "n", "encoding", "version", "standalone", "xml"])    # (names that also occur in an XML declaration)
         if an in used:
             continue
         used.add(an)
@@ -127,12 +127,24 @@ def rdoc(rnd, depth=0, inside_protected=False, ents=None):
     return s + "</" + name + ">"
 
 
+# hand-shaped documents around the XML declaration: attributes and text that LOOK like parts of a declaration
+SPECIAL_DOCS = [
+    '<?xml version="1.0"?><doc encoding="UTF-8" id="a  b"> x  y </doc>',
+    '<?xml version="1.0"?><doc><para>use  encoding="latin-1" here</para><title> t  t </title></doc>',
+    "<?xml version='1.0'?><doc version=\"1.0\" standalone=\"no\" encoding='x'> a </doc>",
+    '<?xml version="1.0" encoding="UTF-8"?><doc encoding="ISO-8859-1"><title>caf\u00e9  au  lait</title></doc>',
+    '<?xml version="1.0" encoding="utf-8" standalone="yes"?>\n<doc><markup> encoding="a"  encoding="b"</markup></doc>',
+    '<doc encoding="UTF-8"><?xml-stylesheet href="a.xsl"?><title xml="1"> ?xml  version </title></doc>',
+    '<?xml version="1.0"?>\n<!-- encoding="c" --><doc a=" encoding=&quot;q&quot; "> x </doc>',
+]
+
+
 def w_xml(seeds):
     from metapype.model.normalize import normalize
     evs = []
     for seed in seeds:
         rnd = random.Random(seed)
-        doc = rdoc(rnd)
+        doc = SPECIAL_DOCS[-seed - 1] if seed < 0 else rdoc(rnd)
         ev = {"op": "normalize_xml", "wf": True, "din": xmlobs.parse_raw(doc), "dout": 0, "t1": 1, "t2": 1, "raised": "", "seed": seed}
         try:
             out1 = normalize(doc, is_xml=True)
@@ -161,7 +173,7 @@ def run(rep, tier, seed):
         strings.append("".join(rnd.choice(ALPH + ["c", "\u00e9", "\u6f22"] + (ODD if _ % 3 == 0 else [])) for _k in range(rnd.randint(7, 40))))
     evs = [e for chunk in parallel(w_text, strings) for e in chunk]
     nx = 300 if tier == "quick" else 8000
-    xevs = [e for chunk in parallel(w_xml, [seed * 1299709 + i for i in range(nx)]) for e in chunk]
+    xevs = [e for chunk in parallel(w_xml, [seed * 1299709 + i for i in range(nx)] + [-(k + 1) for k in range(len(SPECIAL_DOCS))]) for e in chunk]
     allv = evs + xevs
     strip = lambda e: {k: v for k, v in e.items() if k not in ("seed",)}  # noqa: E731
     rejects, rr = judge_traces([strip(e) for e in allv], PID, module="TraceText", cfg="TraceValidate.cfg", label="norm", timeout=3000)
